@@ -57,7 +57,6 @@ Definition e_aresult (r : aresult) : sx :=
   match r with
   | AwRet b => L [N 0; e_bool b]
   | AwExn e => L [N 1; e_exn e]
-  | AwNotAwaitable => L [N 1; L [N 9; N 0]]      (* TypeError at the await *)
   end.
 
 Definition all_evs (tr : list stage) : list sev := flat_map sg_evs tr.
